@@ -16,28 +16,49 @@ fn q(db: &Db, q: &str) {
     let rows: Vec<_> = p.execute_streaming(&snap, &Params::new()).collect();
     println!("  Q {q} -> {} rows: {:?}", rows.len(), rows);
 }
+fn wm(db: &Db, q: &str) {
+    let snap = db.snapshot();
+    let mut txn = db.begin_write();
+    let p = prepare(q).unwrap();
+    let r = p.execute_mixed(&snap, &mut txn, &Params::new());
+    println!("  M {q} -> {:?}", r.as_ref().map(|x| x.1));
+    if r.is_ok() { txn.commit().unwrap(); }
+}
+fn dump(db: &Db) {
+    q(db, "MATCH (n) RETURN id(n), labels(n), properties(n)");
+    q(db, "MATCH (a)-[r]->(b) RETURN id(a), type(r), id(b), properties(r)");
+}
 fn main() {
     let dir = tempfile::tempdir().unwrap();
     let db = Db::open(dir.path().join("a")).unwrap();
-    db.create_index("L", "k").unwrap();
-    w(&db, "CREATE (:L {k: 1, t: 'a'})");
-    w(&db, "CREATE (:L {k: 1, t: 'b'})");
-    w(&db, "CREATE (:L {k: 1, t: 'c'})");
-    let s = db.snapshot();
-    println!("  lookup1 {:?}", s.lookup_index("L", "k", &PropertyValue::Int(1)));
-    drop(s);
-    w(&db, "MATCH (n) WHERE id(n) = 0 SET n.k = 5");
-    let s = db.snapshot();
-    println!("  lookup1 {:?}", s.lookup_index("L", "k", &PropertyValue::Int(1)));
-    drop(s);
-    w(&db, "MATCH (n) WHERE id(n) = 0 SET n.k = 1");
-    let s = db.snapshot();
-    println!("  lookup1 {:?}", s.lookup_index("L", "k", &PropertyValue::Int(1)));
-    drop(s);
-    q(&db, "MATCH (n:L) WHERE n.k = 1 RETURN n.t");
-    q(&db, "MATCH (n:L {k: 1}) RETURN n.t");
-    q(&db, "MATCH (n:L {k: 1, t: 'a'}) RETURN n.t");
-    q(&db, "MATCH (n:L {t: 'a'}) RETURN n.t");
-    q(&db, "MATCH (n:L) WHERE n.k = $v RETURN n.t");
-    q(&db, "MATCH (n) WHERE id(n) = 0 RETURN id(n), n.t");
+    w(&db, "MERGE (n:L {k: 1}) ON CREATE SET n.c = 1 ON MATCH SET n.m = 1");
+    w(&db, "MERGE (n:L {k: 1}) ON CREATE SET n.c = 1 ON MATCH SET n.m = 1");
+    w(&db, "MERGE (n:L {k: 1})");
+    w(&db, "CREATE (:L {k: 1})");
+    w(&db, "MERGE (n:L {k: 1}) ON MATCH SET n.m = 2, n.z = null");
+    w(&db, "UNWIND [1, 2, 2, null] AS x MERGE (n:M {k: x})");
+    w(&db, "UNWIND [2, 3, 3] AS x MERGE (n:M {k: x}) ON CREATE SET n.c = x ON MATCH SET n.m = x");
+    dump(&db);
+    w(&db, "MATCH (n:M) SET n = {a: 1, k: 2}");
+    w(&db, "MATCH (n:M) SET n += {a: 1, b: null, k: null}");
+    w(&db, "MATCH (n:M) SET n:M:X");
+    w(&db, "MATCH (n:M) REMOVE n:X:Nope");
+    w(&db, "MATCH (n:M) REMOVE n.a, n.zz");
+    w(&db, "MATCH (n:M) SET n.a = 1 REMOVE n.a");
+    wm(&db, "MATCH (n:M) SET n.a = 1 REMOVE n.a");
+    wm(&db, "MATCH (n:M) SET n.a = 1 SET n.b = n.a");
+    dump(&db);
+    w(&db, "MATCH (a:L), (b:M) CREATE (a)-[:T {w: 1}]->(b)");
+    w(&db, "MATCH (a:L), (b:M) WHERE id(a) = 0 CREATE (a)-[:T {w: 2}]->(b)");
+    dump(&db);
+    w(&db, "MATCH (a:L) WHERE id(a) = 0 DELETE a");
+    w(&db, "MATCH (a:L)-[r:T]->(b) WHERE id(a) = 0 DELETE r, a");
+    w(&db, "MATCH (a:L) WHERE id(a) = 1 DETACH DELETE a");
+    w(&db, "MATCH (a:L) WHERE id(a) = 2 WITH a MATCH (a)-[r]->() DETACH DELETE a, r");
+    dump(&db);
+    w(&db, "MATCH (a:M), (b:M) WHERE id(a) < id(b) MERGE (a)-[r:R {w: 1}]->(b) ON CREATE SET r.c = 1 ON MATCH SET r.m = 1");
+    w(&db, "MATCH (a:M), (b:M) WHERE id(a) < id(b) MERGE (a)-[r:R {w: 1}]->(b) ON CREATE SET r.c = 1 ON MATCH SET r.m = 1");
+    w(&db, "MATCH (a:M) DELETE a SET a.k = 5");
+    wm(&db, "MATCH (a:M) DETACH DELETE a SET a.k = 5");
+    dump(&db);
 }
